@@ -18,6 +18,7 @@ EXPLANATION = ("Three-way agreement decided from the source on every run: for 43
                " (R7) plain value store: the declared data size equals what write_data emits (the remembered key changes only where the accumulator advances); (R8) cluster pointers are tail offsets (= C01-R6)."
                " Added later: (R9) counts are compared with their field's maximum before they are narrowed; (R10) positions stored in a pack written at a recorded origin are pack-relative; (R11) offset widths come from the total (= C02-R8); (R12) column widths are chosen on final positions (= C15-R1). (R13) every table is one checked block (= C01-R18). (R14) every counted value is sized (= C02-R17).")
 EXPLANATION += ' Batch 11: (R15) every layout Property::Padding(n) the creator builds has n bounded by 16 (the size nibble).'
+EXPLANATION += ' Batch 12: (R16) no function of ManifestPackCreator reorders or filters self.packs (values computed pack by pack stay in step).'
 ASSUMPTIONS = ["the reference table was written from the pinned sources (DESIGN.md Appendix A)", "zerocopy/byteorder LE/BE helpers behave as documented",
                "rustc HIR/MIR construction and trait resolution"]
 
@@ -834,7 +835,29 @@ def r15_padding_fits_its_nibble(cx):
         raise AnchorLost("constructions of layout Property::Padding: %d" % n)
 
 
+def r16_manifest_packs_keep_their_order(cx):
+    """'recovers exactly the logical content': ManifestPackCreator keeps, next to the list of packs, values computed pack by
+    pack in the same order (the ids of their free data in the value store) and zips them when the pack infos are written.
+    Nothing reorders or filters `self.packs` in between (no sort / reverse / swap / retain / dedup / rotate): each pack
+    info carries the free-data id that was computed for that very pack."""
+    F = cx.F
+    n = 0
+    bad = []
+    for f in F.live_fns:
+        if "blocks" not in f or not re.search(r"manifest_pack::ManifestPackCreator", f["name"]):
+            continue
+        b = F.body(f)
+        n += 1
+        for i, t in b.calls(r"::(par_)?sort(_unstable)?(_by|_by_key|_by_cached_key)?(::<.*>)?$", r"::reverse$", r"::swap(_remove)?$", r"::retain(_mut)?(::<.*>)?$", r"::dedup(_by|_by_key)?(::<.*>)?$", r"::rotate_(left|right)$", r"::drain(::<.*>)?$", r"::truncate$"):
+            if not b.is_cleanup(i) and t["args"] and ("field", "packs") in b.origins(t["args"][0]):
+                bad.append("%s:%s %s" % (re.sub(r"<.*?>", "", f["name"]).split("::")[-1], t.get("ln"), callee_str(t).split("::<")[0].split("::")[-1]))
+    if n < 2:
+        raise AnchorLost("functions of ManifestPackCreator: %d" % n)
+    cx.ob("R16", "R16/ManifestPackCreator/packs-keep-their-order", not bad, "src/creator/manifest_pack.rs (impl ManifestPackCreator)", "no function of ManifestPackCreator reorders or filters self.packs (%s)" % (bad or "none"))
+
+
 RULES = [
+    ("R16", r16_manifest_packs_keep_their_order, 1),
     ("R15", r15_padding_fits_its_nibble, 2),
     ("R14", r14_every_value_takes_part_in_the_sizing, 1),
     ("R13", r13_tables_are_single_blocks, 5),
